@@ -333,7 +333,38 @@ def check_mesh_level(case):
     return OK(k >= 1, f"mesh_level{k}", key=f"mesh_level{k}")
 
 
+def check_huge(case):
+    """Long inputs with the interpreter's default recursion budget: standardisation of a few
+    thousand values with ties, rank / unrank of permutations of a few hundred points."""
+    from ..lib import with_default_recursion_budget
+
+    seq, p = case["seq"], tuple(case["p"])
+    n = len(p)
+
+    def body():
+        if tuple(Perm.to_standard(seq)) != ref.std(seq) or tuple(Perm.to_standard(iter(seq))) != ref.std(seq):
+            return "to_standard"
+        P = Perm(p)
+        r = P.rank()
+        if r != ref.rank(p) or Perm.unrank(r) != P or Perm.unrank(ref.rank_in_length(p), n) != P:
+            return "rank_unrank"
+        if Perm.from_iterable_validated(p) != P or eval(repr(P), {"Perm": Perm}) != P:  # pylint: disable=eval-used
+            return "validated_repr"
+        nxt = Perm.unrank(r + 1)
+        if not (P < nxt) or nxt < P or len(nxt) not in (n, n + 1):
+            return "successor"
+        return None
+
+    status, bad = with_default_recursion_budget(body)
+    if status == "recursion":
+        return BAD("huge_recursion_error", {"length": n, "seq_length": len(seq)})
+    if bad:
+        return BAD("huge_" + bad, {"length": n, "seq_length": len(seq)})
+    return OK(True, "huge", key=str(hash(p)))
+
+
 CHECKS = {
+    "huge": check_huge,
     "level": check_level,
     "notations": check_notations,
     "big_rank": check_big_rank,
@@ -463,6 +494,8 @@ def shard_generated(acc, shard, nshards, n_rank, n_std, n_hist, n_val, n_mesh, f
         acc.record("notations", check_notations, list(range(n)))
         acc.record("notations", check_notations, list(range(n - 1, -1, -1)))
     engine.hyp_run(acc, "big_rank", check_big_rank, big_rank_cases(), n_rank, shard)
+    huge = st.fixed_dictionaries({"seq": st.lists(st.integers(-50, 400), min_size=1500, max_size=3000), "p": st.integers(150, 300).flatmap(gen.perm_of).map(list)})
+    engine.hyp_run(acc, "huge", check_huge, huge, 2 if n_rank < 2000 else 8, shard)
     engine.hyp_run(acc, "standardise", check_standardise, seq_cases(), n_std, shard)
     engine.hyp_run(acc, "std_history", check_std_history, std_history_cases(filler), n_hist, shard)
     engine.hyp_run(acc, "validated", check_validated, validated_cases(), n_val, shard)
